@@ -194,6 +194,14 @@ pub struct Query {
 fn cache_verify(cache: &BlsCache, q: &Query) -> bool {
     let sig = q.signature();
     let pm = q.pk_msgs();
+    // forms 2 and 3 also pass the signature, and form 3 the keys, through their wire encoding
+    // (unchecked decoding, so that points outside the subgroup survive the round trip)
+    let sig = if q.feed % 4 >= 2 { Signature::from_bytes_unchecked(&sig.to_bytes()).unwrap_or(sig) } else { sig };
+    let pm: Vec<(PublicKey, Vec<u8>)> = if q.feed % 4 == 3 {
+        pm.into_iter().map(|(pk, m)| (PublicKey::from_bytes_unchecked(&pk.to_bytes()).unwrap_or(pk), m)).collect()
+    } else {
+        pm
+    };
     match q.feed % 4 {
         0 => cache.aggregate_verify(pm.iter().map(|(pk, m)| (pk, m.as_slice())), &sig),
         1 => cache.aggregate_verify(pm.iter().filter(|_| true).map(|(pk, m)| (pk, m.as_slice())), &sig),
@@ -321,7 +329,10 @@ fn run_op(cache: &BlsCache, op: &Op) -> OpResult {
                 let m = *m as usize % NMSGS;
                 let mut aug = p.pks[k].to_bytes().to_vec();
                 aug.extend_from_slice(&p.msgs[m]);
-                cache.update(&aug, p.gts[k][m].clone());
+                // every other message: the pairing arrives through its byte encoding, as it does
+                // when the mempool hands pairings over from another process
+                let gt = if m % 2 == 1 { GTElement::from_bytes(&p.gts[k][m].to_bytes()) } else { p.gts[k][m].clone() };
+                cache.update(&aug, gt);
             }
             OpResult::Unit
         }
